@@ -817,14 +817,37 @@ def polygon(k):
 def tx_cases(count, rng):
     """composed transactions: (a) two faces built from free darts by 1-links / 1-sews and 3-sewn (3-unsewn again) in the
     same transaction; (b) two polyhedra: the last 2-sews of their surfaces and the gluing 3-sew (3-unsew, 3-sew again) in
-    one transaction; (c) closed glued faces: a few random sews/unsews/links ending in a 3-sew or 3-unsew"""
+    one transaction; (c) closed glued faces: a few random sews/unsews/links ending in a 3-sew or 3-unsew; (d) a 1-sew after the
+    2-/3-sew or link that gives its left dart the image through which the head vertex is found"""
     cases = []
     sh = closed_shapes()
     pairs = gens.cell_pairs()
     for c in range(count):
         mask = rng.choice(MASKS)
-        kind = c % 3
-        if kind == 0:
+        kind = c % 4
+        if kind == 3:
+            # (d) a 1-sew whose left dart got its beta2 / beta3 image EARLIER IN THE SAME transaction (the head vertex of the
+            # left dart is found through that image), on free darts and on partial faces
+            n = rng.randint(3, 6)
+            setup = [f"new 3 {n} {mask}"]
+            for d in range(1, n + 1):
+                if rng.random() < 0.9:
+                    setup.append(f"wv {d} {gens.dy(rng)} {gens.dy(rng)} {gens.dy(rng)}")
+            setup += attr_lines(rng, range(1, n + 1), mask, rng.choice([1.0, 0.5, 0.0]), rng.random() < 0.8)
+            ds = list(range(1, n + 1))
+            rng.shuffle(ds)
+            l, o, r = ds[0], ds[1], ds[2]
+            for _ in range(rng.choice([0, 0, 1])):
+                x, y = rng.sample(ds, 2)
+                setup.append(f"flink 1 {x} {y}")
+            ops = [f"{rng.choice(['sew', 'sew', 'link'])} {rng.choice([2, 3])} {l} {o}"]
+            if rng.random() < 0.3 and n >= 5:
+                ops.append(f"{rng.choice(['sew', 'link'])} {rng.choice([2, 3])} {r} {ds[3]}")
+            ops.append(f"sew 1 {l} {r}")
+            if rng.random() < 0.3:
+                ops.append(f"unsew 1 {l}")
+            cases.append(tx_case(f"txd{c}", setup, ops, "tx-one-sew-after-glue"))
+        elif kind == 0:
             k = rng.choice([1, 2, 3, 3, 4, 4])
             k2 = k if rng.random() < 0.9 else rng.choice([1, 2, 3, 4])
             n = k + k2
